@@ -91,7 +91,9 @@ def run(cx):
     cx.rule("C18.R5", "termination parity: the results of proxy::handle and proxy::handle_connect go through the same BrokenPipe-is-normal-end handling; no raw close() of a descriptor that still has an owner")
     cx.rule("C18.R6", "forward then wait: in proxy.rs every write_all is followed by a flush of the same writer on every path before the bridge blocks in another read (or returns): bytes already received are never parked in a buffer")
     cx.rule("C18.R7", "close detection precedes reading: in WatchClose::read the data descriptor is read only after the scan for hang-up/error events of both descriptors found nothing, and a hang-up is reported as BrokenPipe")
-    r1(cx); r2(cx); r3(cx); r4(cx); r5(cx); r6(cx); r7(cx); r7_level(cx)
+    cx.rule("C18.R8", "the relay of one call ends with the reply that ends it: after a reply was parsed the bridge goes back to reading the service exactly when reply.continues == Some(true) (absent and Some(false) both end the call) — evaluated with the member seeded absent / Some(false) / Some(true)")
+    cx.rule("C18.R9", "an upgraded session starts flowing at once in both directions: between the relay of the upgrade reply and the start of the two copy threads the bridge does not block in a read (bytes already buffered are taken with BufReader::buffer(), which never waits) — otherwise what the service says first is withheld until the client speaks")
+    r1(cx); r2(cx); r3(cx); r4(cx); r5(cx); r6(cx); r7(cx); r7_level(cx); r8(cx); r9(cx)
 
 
 def r1(cx):
@@ -465,3 +467,64 @@ def r7_level(cx):
         cx.bad("C18.R7", key, "%s:%d %s" % (rel, bad[0][1], bad[0][0]), "descriptor registered with %s: after a wake-up that is answered by one read of at most one buffer, the bytes left in the socket are never reported again, so a message larger than the buffer is cut off" % bad[0][2])
     else:
         cx.check(n >= 1 and vocab, "C18.R7", key, rel, "expected an Event::new registration and the EPOLLET definition to be visible (found %d, %s)" % (n, vocab), note_ok="%d registration site(s), none edge-triggered/one-shot" % n)
+
+
+def r8(cx):
+    from vlib import absval
+    from vlib.cfg import enumerate_paths
+    n = 0
+    for body in cx.mir.bodies(PKG):
+        if body.promoted is not None or "proxy.rs" not in body.sp: continue
+        parses = [t for t in body.calls("=from_slice") if "serde_json" in t.callee.path and t.dest is not None and not t.dest.p and "Reply" in body.ty(t.dest.l)]
+        if not parses: continue
+        cx.saw(body)
+        cfg = Cfg(body); du = DefUse(body)
+        reads = [t for t in body.calls("=read_until")]
+        for i, t in enumerate(parses):
+            n += 1
+            key = "%s:%s:reply#%d:relay-ends-with-final-reply" % (PKG, body.path, i)
+            site = "%s %s" % (t.sp, body.path)
+            # the read this reply came from: the read_until that dominates the parse, innermost
+            doms = cfg.dominators().get(t.bb, set())
+            mine = [r for r in reads if r.bb in doms]
+            if not mine or t.target is None:
+                cx.bad("C18.R8", key, site, "the parsed reply does not come from a read_until of this function"); continue
+            src = max(mine, key=lambda r: len(cfg.dominators().get(r.bb, set())))
+            others = {r.bb for r in reads if r is not src}
+            why = []
+            for name, v in (("absent", ("var", 0, ())), ("Some(false)", ("var", 1, (("int", 0),))), ("Some(true)", ("var", 1, (("int", 1),)))):
+                rv = absval.struct_value("Reply", {"continues": v})
+                if rv is None: why.append("Reply layout unknown"); break
+                env0 = {t.dest.l: ("var", 0, (rv,))}
+                hit = [False]
+                paths = enumerate_paths(cfg, t.target, lambda blk: blk.idx == src.bb or blk.idx in others or blk.term.kind == "return", du=du, env0=env0, on_limit=lambda: hit.__setitem__(0, True))
+                if hit[0]: why.append("too many paths"); break
+                back = [p for p in paths if p[-1] == src.bb]
+                if name != "Some(true)" and back: why.append("after a final reply (continues %s) the bridge waits for another reply of the service: the next request of the client is never forwarded" % name)
+                if name == "Some(true)" and not back: why.append("after a reply with continues: true the bridge stops relaying: the rest of the stream is lost")
+            cx.check(not why, "C18.R8", key, site, "; ".join(why), note_ok="reads the service again iff continues == Some(true)")
+    cx.floor("C18.R8", "reply parse sites in proxy.rs", n, 1)
+
+
+def r9(cx):
+    n = 0
+    for body in cx.mir.bodies(PKG):
+        if body.promoted is not None or "proxy.rs" not in body.sp: continue
+        spawns = [t for t in body.calls("=spawn") if "thread" in t.callee.path]
+        parses = [t for t in body.calls("=from_slice") if "serde_json" in t.callee.path and t.dest is not None and not t.dest.p and "Reply" in body.ty(t.dest.l)]
+        if not spawns or not parses: continue
+        cx.saw(body)
+        cfg = Cfg(body); doms = cfg.dominators()
+        blocking = [t for t in body.calls("=read", "=read_until", "=read_exact", "=read_line", "=read_to_end", "=fill_buf", "=recv", "=join")]
+        for i, sp in enumerate(spawns):
+            n += 1
+            key = "%s:%s:spawn#%d:no-wait-before-splice" % (PKG, body.path, i)
+            # reads that every way to this spawn has passed, but that came after the reply had been parsed (not the request read at the
+            # top of the loop, which also stands before the parse)
+            late = [r for r in blocking if r.bb in doms.get(sp.bb, set()) and not any(r.bb in doms.get(p.bb, set()) for p in parses)
+                    and any(p.bb in doms.get(r.bb, set()) or r.bb in cfg.reach(p.target) for p in parses if p.target is not None)
+                    and not any(s2.bb in doms.get(r.bb, set()) for s2 in spawns)]
+            cx.check(not late, "C18.R9", key, "%s %s" % (sp.sp, body.path),
+                     "%s (%s) stands between the relayed upgrade reply and the start of the copy threads: the bridge waits for the client although the service may speak first" % (late[0].callee.name if late else "", late[0].sp if late else ""),
+                     note_ok="no blocking read between the reply relay and the copy threads")
+    cx.floor("C18.R9", "copy-thread spawns behind a reply relay", n, 2)
